@@ -24,6 +24,7 @@ from ..runner import Failure, Result, pmap, seeded_order
 
 PROP = "C19"
 LIMIT = 64
+CLIENT_STREAM_LIMIT = 40  # production: 64 KiB stream buffer vs MAX_INPUT_SIZE 10 MiB -- the buffer limit is the smaller one
 
 # item = list of parts; part = ("line", bytes) | ("lit", bytes, sync)
 ITEMS = {
@@ -42,6 +43,9 @@ ITEMS = {
     "big-nonsync": [("line", b"t9 APPEND INBOX"), ("lit", b"y" * 100, False), ("line", b"")],
     "big-nonsync-crlf": [("line", b"tc APPEND INBOX"), ("lit", b"q" * 50 + b"\r\nt0 LOGOUT\r\n" + b"q" * 40, False), ("line", b"")],
     "big-line": [("line", b"ta SEARCH " + b"OR SEEN " * 9 + b"ALL")],
+    # longer than the connection's stream buffer, within the size limit: an ordinary command
+    "long-line": [("line", b"tf SEARCH " + b"OR SEEN " * 5 + b"ALL")],
+    "long-line-lit": [("line", b"tg SEARCH OR SEEN OR SEEN OR SEEN OR SEEN SUBJECT"), ("lit", b"hi", True), ("line", b"")],
     "big-accum": [("line", b"tb APPEND INBOX"), ("lit", b"z" * 40, False), ("line", b" "), ("lit", b"w" * 40, False), ("line", b"")],
 }
 
@@ -152,7 +156,7 @@ def run_stream(items, cuts_per_stretch):
     """One execution.  Returns (frames relayed, n_plus, n_bad, closed, final_ok, transcript)."""
     fw = FrontWorld(max_input=LIMIT)
     try:
-        s = fw.imap_client()
+        s = fw.imap_client(limit=CLIENT_STREAM_LIMIT)
         # force the authenticated state with a capturing user-process connection
         out0 = s.line(b"a0 LOGIN alice alicepw")
         assert b"a0 OK" in out0, out0
